@@ -586,6 +586,14 @@ def check_cviart(ctx):
             cov.sample({"CVIART": VI_NAMES[validity], "params": p, "mode": mode, "n": n, "labels": labels})
 
 
+
+def prepare(ctx):
+    """Translator tie (see gen_tie.py): the source of this slice is re-translated to Lean on every run
+    (harness/artv/itrans.py) and proved equal to the model the property theorems are about"""
+    from .gen_tie import gen_prepare, extra_theorems
+    from .. import itrans
+    gen_prepare(ctx, extra_theorems("itrans") + [], itrans.COVERS)
+
 def run(ctx):
     ctx.trusted += ["sklearn.metrics.calinski_harabasz_score / davies_bouldin_score / silhouette_score (oracle values)",
                     "float rounding is outside the theorems: exact model vs float implementation compared to 1e-9"]
